@@ -126,7 +126,14 @@ def run(job: dict, state: dict, child) -> dict:  # noqa: ANN001
             elif op["op"] == "GEN_SEQ":
                 # one generator renders the modules in a seeded order (a prefix of a permutation)
                 gen = StubsStringGenerator(api=model, convert_identifiers=flag)
-                order = sorted(module_ids, key=lambda mid: hashlib.sha256(f"{op.get('order_seed', 0)}|{mid}".encode()).hexdigest())
+                if op.get("order_mode") in ("model", "reversed"):
+                    # the order in which the CLI renders them (insertion order of api.modules), or exactly the opposite:
+                    # together the two put every pair of modules in both relative orders
+                    order = [m.id for m in model.modules.values() if m.name != "__init__"]
+                    if op["order_mode"] == "reversed":
+                        order = order[::-1]
+                else:
+                    order = sorted(module_ids, key=lambda mid: hashlib.sha256(f"{op.get('order_seed', 0)}|{mid}".encode()).hexdigest())
                 order = order[: max(1, int(len(order) * float(op.get("prefix", 1.0))))] if order else []
                 by_id = {m.id: m for m in model.modules.values()}
                 rec["order"] = order
